@@ -299,7 +299,13 @@ def source_reset(ctx, db, rid='C06.source-reset'):
         ctx.ob(rid, f, f['key'], bad is None, 'source emptied last, elements handed over once' + ('' if not bad else ' -- ' + bad[0]), desc=bad[0] if bad else None, trace=fmt_trace(bad[1]) if bad else None)
     for f in db.fns('cocls::suspend_point::operator=')[:1]:
         n = [e for e in f.events() if e.k == 'call' and norm(e.get('callee')) == 'cocls::suspend_point::operator<<']
-        ctx.ob(rid, f, f['key'], len(n) == 1, 'move-assignment is the merge', desc='move-assignment is not implemented by the merge')
+        # ... and nothing but the merge: the handles the target already holds are ready coroutines too; emptying the target first (clear_internal,
+        # a write to its own count word) drops them without resuming them - only the running forms (clear / suspend_now / flush) may precede
+        drops = [e for g in [f] + helper_bodies(db, f) if g['nname'] != 'cocls::suspend_point::operator<<' and g['nname'] != 'cocls::suspend_point::add'
+                 for e in g.events() if (e.k == 'call' and norm(e.get('callee')) == 'cocls::suspend_point::clear_internal') or
+                 (e.k == 'write' and (e.get('path') or '') in ('this->_count_flag',)) or (e.k == 'delete' and rooted(e.get('path') or '', 'this'))] if n else []
+        ctx.ob(rid, f, f['key'], len(n) == 1 and not drops, 'move-assignment is the merge' + ('' if not drops else ' -- the target is emptied without running what it held (%s at %s)' % (drops[0].k, relloc(drops[0]['loc']))),
+               desc='move-assignment is not implemented by the merge' if len(n) != 1 else ('move-assignment drops the handles the target already holds' if drops else None))
 
 
 def consumers_clear(ctx, db, rid='C06.consumers-clear'):
@@ -358,6 +364,9 @@ def consumers_clear(ctx, db, rid='C06.consumers-clear'):
             run_ = [c for c in tr if c.k == 'call' and norm(c.get('callee')) in ('std::coroutine_handle::resume', 'std::coroutine_handle::operator()')]
             if len(em) != 1:
                 bad = bad or ('the closure run on the normal-mode edge empties the suspend point %d times%s: its handles are %s' % (len(em), ' while it resumes handles itself' if run_ else '', 'run again by the destructor' if not em else 'consumed twice'), tr)
+            elif norm(em[0].get('callee')) == 'cocls::suspend_point::await_suspend' and (em[0].get('use') == 'discard' or not run_):
+                # the nested call queues all handles but one and returns that one for symmetric transfer: it has to be resumed here
+                bad = bad or ('the handle the nested await_suspend returns for transfer is dropped: that coroutine is in no queue and is never resumed', tr)
         ctx.ob(rid, lf, lf['key'], bad is None and bool(trs), 'await_suspend, normal-mode closure: the handles are consumed exactly once' + ('' if not bad else ' -- ' + bad[0]), desc=bad[0] if bad else None,
                trace=fmt_trace(bad[1]) if bad else None)
     for f, trs in traces_of(db, 'cocls::suspend_point::~suspend_point', depth=0, per_instance=False):
